@@ -504,6 +504,9 @@ func (p *printer) node1(it *item) (string, error) {
 		// the end tag must still be found where it stands: no opening delimiter may straddle the end of the body
 		// ("...<" + "<? endraw ?>" reads as "<<" with custom delimiters)
 		for i, d := range []string{p.sp.Delims[0], p.sp.Delims[2]} {
+			if p.sp.Raw == nil {
+				break // (default delimiters: the generated bodies are known to be safe)
+			}
 			for k := 1; k < len(d); k++ {
 				if strings.HasSuffix(body, d[:k]) && strings.HasPrefix(end, d[k:]) {
 					return "", fmt.Errorf("body %q runs into its end tag", body)
